@@ -35,9 +35,12 @@ and C17 (filestore).
 (ACK (EOF) back to the sender, Finished PDU to the sender, ACK (Finished) to the receiver): both idle,
 file byte-identical, one successful Transaction-Finished indication on each side, no fault.
 
-NOT covered by a theorem: arbitrary fair pacing (several
-PDUs queued before a `state_machine` call); these are explored end to end on implementation and
-model (randomised pacing over the whole configuration cross product), see MANIFEST / evidence.
+Pacing: `C02_dest_empty_call_noop` / `C02_source_empty_call_noop` — a `state_machine()` call without a
+PDU, with nothing left to retrieve and no timer run out, changes nothing at all; so the composed
+theorems, stated for one call per PDU, hold for every pacing that inserts such calls anywhere.  NOT
+covered by a theorem: several PDUs handed to a handler between two retrievals; that is explored end
+to end on implementation and model (randomised pacing over the whole configuration cross product),
+see MANIFEST / evidence.
 -/
 set_option linter.unusedSimpArgs false
 set_option linter.unusedVariables false
@@ -1334,5 +1337,108 @@ theorem C02_end_to_end_ack (envS : Source.Env) (envD : Dest.Env) (s : Source.Src
       simp [afterMdA, isFinished]
     rw [h1]
     cases envD.cfg.indEofRecv <;> cases envD.cfg.indFinished <;> simp [isFinished, fpOk]
+
+/-! ## Pacing: a call without a PDU between timer expiries does nothing -/
+
+/-- nothing is due at the receiver: no timer it is waiting on has run out (and, while it receives file
+data, there is no timer at all) -/
+def QuietD (env : Dest.Env) (d : Dest.DestSt) : Prop :=
+  (d.step = .RECEIVING_FILE_DATA) ∨
+  ((d.step = .WAITING_FOR_METADATA ∨ d.step = .WAITING_FOR_MISSING_DATA) ∧
+    (d.p.deferredActive = false ∨
+      (d.p.canceled = false ∧ (d.p.trk.length ≠ 0 ∨ d.p.metadataMissing = true) ∧ d.p.remoteCfg ≠ none ∧
+        d.p.fileSizeEof ≠ none ∧ ∃ t, d.p.procTimer = some t ∧ t.timedOut env.now = false))) ∨
+  (d.step = .RECV_FILE_DATA_WITH_CHECK_LIMIT_HANDLING ∧ d.p.remoteCfg ≠ none ∧
+    ∃ t, d.p.checkTimer = some t ∧ t.timedOut env.now = false) ∨
+  (d.step = .WAITING_FOR_FINISHED_ACK ∧ d.p.remoteCfg ≠ none ∧
+    ∃ t, d.p.ackTimer = some t ∧ t.timedOut env.now = false)
+
+/-- **Receiver: an empty call between expiries is a no-op.**  Busy, nothing left to retrieve, no
+timer run out: `state_machine()` without a PDU returns without changing anything — no PDU, no
+indication, no fault, no write.  Hence the composed delivery and recovery theorems, stated for one
+call per PDU, hold for every pacing that inserts such calls anywhere. -/
+theorem C02_dest_empty_call_noop (env : Dest.Env) (d : Dest.DestSt) (hb : d.state = .busy) (hq : d.queue = [])
+    (hQ : QuietD env d) : Dest.stateMachine env none d = .ok () d := by
+  unfold Dest.stateMachine
+  generalize (Dest.stateMachineWith env none (Dest.stateMachineWith env none (throw Err.recursionError))) = rec
+  rcases hQ with hs | ⟨hs, hdef⟩ | ⟨hs, hrc, t, ht, hrun⟩ | ⟨hs, hrc, t, ht, hrun⟩
+  · msimp [Dest.stateMachineWith, hb, Dest.nonIdleFsm, Dest.fsmAdvancementAfterPacketsWereSent, hq, hs,
+      Dest.fsmFromReceiving, Dest.fsmFromWaitingForMetadata, Dest.fsmFromCheckLimit,
+      Dest.fsmFromWaitingForMissingData, Dest.fsmFromTransferCompletion, Dest.fsmFromSendingFinishedPdu,
+      Dest.fsmFromWaitingForFinishedAck]
+  · rcases hdef with hdef | ⟨hc, hmiss, hrc, hfse, t, ht, hrun⟩
+    · rcases hs with hs | hs <;>
+      msimp [Dest.stateMachineWith, hb, Dest.nonIdleFsm, Dest.fsmAdvancementAfterPacketsWereSent, hq, hs,
+        Dest.fsmFromReceiving, Dest.fsmFromWaitingForMetadata, Dest.handleWaitingForMissingMetadata,
+        Dest.deferredLostSegmentHandling, Dest.getP, hdef, Dest.fsmFromCheckLimit,
+        Dest.fsmFromWaitingForMissingData, Dest.fsmFromTransferCompletion, Dest.fsmFromSendingFinishedPdu,
+        Dest.fsmFromWaitingForFinishedAck]
+    · obtain ⟨rc, hrc'⟩ := Option.ne_none_iff_exists'.mp hrc
+      obtain ⟨fse, hfse'⟩ := Option.ne_none_iff_exists'.mp hfse
+      have hda : d.p.deferredActive = true ∨ d.p.deferredActive = false := by cases d.p.deferredActive <;> simp
+      have hm : ¬ (d.p.trk.length = 0 ∧ d.p.metadataMissing = false) := by
+        rcases hmiss with h | h
+        · intro hh; exact h hh.1
+        · intro hh; rw [h] at hh; exact absurd hh.2 (by simp)
+      have hm2 : ¬ (d.p.trk = [] ∧ d.p.metadataMissing = false) := by
+        intro hh; exact hm ⟨by rw [hh.1]; rfl, hh.2⟩
+      rcases hda with hda | hda <;> rcases hs with hs | hs <;>
+      msimp [Dest.stateMachineWith, hb, Dest.nonIdleFsm, Dest.fsmAdvancementAfterPacketsWereSent, hq, hs,
+        Dest.fsmFromReceiving, Dest.fsmFromWaitingForMetadata, Dest.handleWaitingForMissingMetadata,
+        Dest.deferredLostSegmentHandling, Dest.getP, hda, hc, hrc', hfse', hm, hm2, ht, Timer.busy, hrun,
+        Dest.fsmFromCheckLimit,
+        Dest.fsmFromWaitingForMissingData, Dest.fsmFromTransferCompletion, Dest.fsmFromSendingFinishedPdu,
+        Dest.fsmFromWaitingForFinishedAck]
+  · obtain ⟨rc, hrc'⟩ := Option.ne_none_iff_exists'.mp hrc
+    msimp [Dest.stateMachineWith, hb, Dest.nonIdleFsm, Dest.fsmAdvancementAfterPacketsWereSent, hq, hs,
+      Dest.fsmFromReceiving, Dest.fsmFromWaitingForMetadata, Dest.fsmFromCheckLimit, Dest.checkLimitHandling,
+      Dest.getP, ht, hrc', hrun,
+      Dest.fsmFromWaitingForMissingData, Dest.fsmFromTransferCompletion, Dest.fsmFromSendingFinishedPdu,
+      Dest.fsmFromWaitingForFinishedAck]
+  · obtain ⟨rc, hrc'⟩ := Option.ne_none_iff_exists'.mp hrc
+    msimp [Dest.stateMachineWith, hb, Dest.nonIdleFsm, Dest.fsmAdvancementAfterPacketsWereSent, hq, hs,
+      Dest.fsmFromReceiving, Dest.fsmFromWaitingForMetadata, Dest.fsmFromCheckLimit,
+      Dest.fsmFromWaitingForMissingData, Dest.fsmFromTransferCompletion, Dest.fsmFromSendingFinishedPdu,
+      Dest.fsmFromWaitingForFinishedAck, Dest.handleWaitingForFinishedAck, Dest.handlePositiveAckProcedures,
+      Dest.getP, ht, hrc', hrun]
+
+/-- nothing is due at the sender: it waits for the ACK of its EOF or for the Finished PDU and the
+timer it waits on (if any) has not run out -/
+def QuietS (env : Source.Env) (s : Source.SrcSt) : Prop :=
+  (s.step = .WAITING_FOR_EOF_ACK ∧ s.p.remoteCfg ≠ none ∧ ∃ t, s.p.ackTimer = some t ∧ t.timedOut env.now = false) ∨
+  (s.step = .WAITING_FOR_FINISHED ∧
+    (s.p.checkTimer = none ∨ ∃ t, s.p.checkTimer = some t ∧ t.timedOut env.now = false))
+
+/-- **Sender: an empty call between expiries is a no-op** while it waits for the peer -/
+theorem C02_source_empty_call_noop (env : Source.Env) (s : Source.SrcSt) (req : Source.PutReq)
+    (hb : s.state = .busy) (hq : s.queue = []) (hreq : s.putReq = some req) (hQ : QuietS env s) :
+    Source.stateMachine env none s = .ok () s := by
+  rcases hQ with ⟨hs, hrc, t, ht, hrun⟩ | ⟨hs, hct⟩
+  · obtain ⟨rc, hrc'⟩ := Option.ne_none_iff_exists'.mp hrc
+    msimp [Source.stateMachine, hb, Source.fsmNonIdle, Source.fsmAdvancementAfterPacketsWereSent, hq, hs, hreq,
+      Source.fsmFromSendingFileData, Source.fsmFromSendingEof, Source.fsmFromWaitingForEofAck,
+      Source.handleWaitingForAck, Source.handleRetransmission, Source.handlePositiveAckProcedures, Source.getP,
+      ht, hrc', hrun, Source.fsmFromWaitingForFinished, Source.fsmFromNoticeOfCompletion]
+  · rcases hct with hct | ⟨t, ht, hrun⟩
+    · cases hm : s.p.conf.mode <;>
+      msimp [Source.stateMachine, hb, Source.fsmNonIdle, Source.fsmAdvancementAfterPacketsWereSent, hq, hs, hreq,
+        Source.fsmFromSendingFileData, Source.fsmFromSendingEof, Source.fsmFromWaitingForEofAck,
+        Source.fsmFromWaitingForFinished, Source.handleWaitForFinish, Source.transmissionMode, hm,
+        Source.handleRetransmission, Source.getP, hct, Source.fsmFromNoticeOfCompletion]
+    · cases hm : s.p.conf.mode <;>
+      msimp [Source.stateMachine, hb, Source.fsmNonIdle, Source.fsmAdvancementAfterPacketsWereSent, hq, hs, hreq,
+        Source.fsmFromSendingFileData, Source.fsmFromSendingEof, Source.fsmFromWaitingForEofAck,
+        Source.fsmFromWaitingForFinished, Source.handleWaitForFinish, Source.transmissionMode, hm,
+        Source.handleRetransmission, Source.getP, ht, hrun, Source.fsmFromNoticeOfCompletion]
+
+
+/-- non-vacuity: a receiver in the middle of the file data (no timer at all) and a sender waiting for
+the ACK of its EOF with the timer running are quiet -/
+example (env : Dest.Env) : QuietD env ({ state := .busy, step := .RECEIVING_FILE_DATA } : Dest.DestSt) := Or.inl rfl
+example : QuietS ⟨⟨⟨1, 2⟩, true, true, true, true, [], 1000⟩, 500⟩
+    ({ state := .busy, step := .WAITING_FOR_EOF_ACK,
+       p := { remoteCfg := some ⟨⟨2, 2⟩, none, 256, false, false, .ack, 3, 1000, 3, 3, false, false, 1000, 3⟩,
+              ackTimer := some ⟨0, 1000⟩ } } : Source.SrcSt) :=
+  Or.inl ⟨rfl, by simp, ⟨0, 1000⟩, rfl, by decide⟩
 
 end Cfdp.C02
